@@ -609,3 +609,6 @@ Proof.
       * intros H. left. exists v. split; [reflexivity|exact H].
       * intros [[w [E H]]|[E|[]]]; [injection E as ->; exact H|discriminate].
 Qed.
+
+Lemma bmasks_length n : length (bmasks n) = 2 ^ n.
+Proof. induction n as [|n IH]; [reflexivity|]. cbn [bmasks]. rewrite app_length, !map_length, IH. cbn [Nat.pow]. lia. Qed.
